@@ -458,7 +458,7 @@ class Func:
             if isinstance(n, dict):
                 if "k" not in n:
                     return n                # a type or reference record: shared, not renumbered
-                c = {k: copy(v) for k, v in n.items()}
+                c = {k: (copy(v) if k in ("a", "init", "cond", "callee", "decls") else v) for k, v in n.items()}
                 if "n" in c:
                     fresh[0] -= 1
                     c["n"] = fresh[0]
@@ -482,6 +482,14 @@ class Func:
             if c["bad"] or len(c["defs"]) != 1:
                 continue
             db, di, rhs = c["defs"][0]
+            # the element may have been rewritten for an earlier alias: take the definition as it stands now
+            for x in walk(self.blocks[db].elems[di]):
+                if x.get("k") == "Decl":
+                    for d in x["decls"]:
+                        if d["ref"]["id"] == pid and d.get("init") is not None:
+                            rhs = d["init"]
+                elif x.get("k") == "Bin" and x["op"] == "=" and sk(x["a"][0]).get("k") == "Ref" and sk(x["a"][0])["ref"]["id"] == pid:
+                    rhs = x["a"][1]
             r = sk(rhs)
             if not (r.get("k") == "Un" and r["op"] == "&" and lvalue_ok(r["a"][0])):
                 continue
@@ -635,7 +643,7 @@ class Func:
             if isinstance(n, dict):
                 if "k" not in n:
                     return n                # a type or reference record: shared, not renumbered
-                c = {k: copy(v) for k, v in n.items()}
+                c = {k: (copy(v) if k in ("a", "init", "cond", "callee", "decls") else v) for k, v in n.items()}
                 if "n" in c:
                     fresh[0] -= 1
                     c["n"] = fresh[0]
@@ -669,6 +677,26 @@ class Func:
                 continue
             reads_mem = any(y.get("k") in ("Mem", "Sub") or (y.get("k") == "Un" and y["op"] == "*") or
                             (y.get("k") == "Ref" and y["ref"].get("rk") == "global") for y in walk(r))
+            # memory read through parameters only cannot be a local object of this function
+            via_params = all(y["ref"].get("rk") != "local" or (y.get("t") or {}).get("k") != "ptr"
+                             for y in walk(r) if y.get("k") == "Ref")
+
+            def local_object(t):
+                """Declaration id of the local (non-pointer) object that lvalue t lies in, or None."""
+                t = sk(t)
+                while True:
+                    k = t.get("k")
+                    if k == "Mem" and not t.get("arrow"):
+                        t = sk(t["a"][0])
+                    elif k == "Sub" and (sk(t["a"][0]).get("t") or {}).get("k") == "array":
+                        t = sk(t["a"][0])
+                    elif k == "Un" and t["op"] == "&":
+                        t = sk(t["a"][0])
+                    else:
+                        break
+                if t.get("k") == "Ref" and t["ref"].get("rk") == "local" and (t.get("t") or {}).get("k") != "ptr":
+                    return t["ref"]["id"]
+                return None
             dirty_at = set()
             for b in self.blocks.values():
                 for i, e in enumerate(b.elems):
@@ -678,6 +706,9 @@ class Func:
                         for t, op in targets(x):
                             if t.get("k") == "Ref" and t["ref"]["id"] in fv:
                                 dirty_at.add((b.id, i))
+                            elif reads_mem and t.get("k") != "Ref" and op != "&" and via_params and \
+                                    local_object(t) is not None and local_object(t) not in fv:
+                                pass            # a field or element of a local object: not what the parameters point to
                             elif reads_mem and t.get("k") != "Ref" and op != "&":
                                 dirty_at.add((b.id, i))
                             elif reads_mem and t.get("k") == "Ref" and t["ref"].get("rk") == "global" and op != "&":
@@ -687,14 +718,26 @@ class Func:
                                 if d["ref"]["id"] in fv:
                                     dirty_at.add((b.id, i))
                         if reads_mem and x.get("k") == "Call" and x.get("fn") not in self.SAFE_CALLS:
+                            if x.get("fn") in ("memcpy", "memmove", "memset", "strncpy") and via_params and x.get("a") and \
+                                    local_object(x["a"][0]) is not None and local_object(x["a"][0]) not in fv:
+                                continue        # fills a local object
                             dirty_at.add((b.id, i))
             uses = []
             for b in self.blocks.values():
+                # the CFG lists a sub-expression and then the expression that contains it: a read is counted where
+                # its node first appears in the block
+                seen_n = set()
                 for i, e in enumerate(b.elems):
-                    if (b.id, i) != (db, di) and any(y.get("k") == "Ref" and y["ref"]["id"] == pid for y in walk(e)):
+                    hit = False
+                    for y in walk(e):
+                        if y.get("k") == "Ref" and y["ref"]["id"] == pid and y.get("n") not in seen_n:
+                            hit = True
+                        if y.get("n") is not None:
+                            seen_n.add(y["n"])
+                    if hit and (b.id, i) != (db, di):
                         uses.append((b.id, i))
                 if b.term and b.term.get("cond") is not None and any(
-                        y.get("k") == "Ref" and y["ref"]["id"] == pid for y in walk(b.term["cond"])):
+                        y.get("k") == "Ref" and y["ref"]["id"] == pid and y.get("n") not in seen_n for y in walk(b.term["cond"])):
                     uses.append((b.id, len(b.elems)))
             if not uses:
                 continue
